@@ -9,6 +9,10 @@ Case kinds
   gs       gauss_seidel(A, b, atol, maxiter) called directly, few sweeps (functional correspondence)
   ml0      rrBLUP_ML0(y, Z, gsmaxiter = 1..4) with the ML ridge recorded as oracle input
   fit      rrBLUPModel0.fit_numpy / fit: wrapper correspondence + the four fitted-model clauses
+  requery  ONE additive (and one dominance) model object is queried on every prediction / statistics /
+           allele entry point, then mutated through the public setters (u_a, u_d, beta, u_misc, trait)
+           and queried again after every assignment; model and Spec are recomputed from the NEW
+           parameters, and predict(Xstar rows) must equal gebv / gegv on the same object
 """
 import contextlib
 from fractions import Fraction
@@ -123,9 +127,12 @@ class C04(Prop):
             "alleles: effects in {-,0,+} per (marker, trait), loci fixed at 0 / fixed at ploidy / polymorphic, "
             "population sizes incl. 49/98/103/107; gs: symmetric dyadic A with positive diagonal, 0-5 sweeps, "
             "atol in {1e-8, 0, 1/4}; ml0/fit: integer genotypes with monomorphic and duplicated columns, "
-            "n <= p and n > p, noiseless / noisy / constant responses.  Non-trivial = lin case with >= 2 taxa "
+            "n <= p and n > p, noiseless / noisy / constant responses; requery: 1-4 assignments through the "
+            "public setters u_a / u_d / beta / u_misc / trait on one model object, every entry point re-queried "
+            "after each.  Non-trivial = lin case with >= 2 taxa "
             "carrying different dosage rows and a non-zero effect; alleles case with a polymorphic marker and a "
-            "non-zero effect; gs case with >= 2 unknowns and >= 1 sweep; ml0/fit case with >= 2 polymorphic markers")
+            "non-zero effect; gs case with >= 2 unknowns and >= 1 sweep; ml0/fit case with >= 2 polymorphic markers; requery case "
+            "with >= 2 distinct dosage rows and an assignment that changes a coefficient matrix")
     TRUSTED = [
         "scipy Nelder-Mead ML step and numpy.linalg.eigh of rrBLUP_ML0: entered as an oracle (the ridge varE/varU "
         "the implementation chose is recorded and handed to the Spec / model); only ridge > 0 is used",
@@ -262,6 +269,39 @@ class C04(Prop):
         Z, Y = self._train(rng, n, p, t)
         return {"kind": "fit", "Z": Z, "Y": canon.enc(Y), "via": rng.choice(["fit_numpy", "fit_numpy", "fit"])}
 
+    def _requery_case(self, rng):
+        ploidy = rng.choice([1, 2, 2, 2, 3, 4])
+        n = rng.choice([2, 3, 4, 5])
+        p = rng.choice([1, 2, 3, 4])
+        t = rng.choice([1, 2, 2])
+        q = rng.choice([1, 2, 3])
+        pm = rng.choice([0, 0, 0, 1, 2])
+        g = self._geno(rng, ploidy, n, p)
+        names = ["tx%02d" % i for i in range(n)]
+        rng.shuffle(names)
+        X = [[1] + [rng.choice([0, 1, 2, Fraction(1, 2)]) for _ in range(q - 1)] for _ in range(n)]
+        Y = [[rng.choice([-2, -1, 0, 1, 2, 3, Fraction(7, 2)]) for _ in range(t)] for _ in range(n)]
+        for k in range(t):
+            if len({row[k] for row in Y}) == 1:
+                Y[0][k] = Y[0][k] + 1
+        has_d = rng.random() < 0.6
+        setters = ["u_a", "u_a", "beta", "trait"] + (["u_d"] if has_d else []) + (["u_misc"] if pm else [])
+        steps = []
+        for _ in range(rng.choice([1, 2, 2, 3, 4])):
+            w = rng.choice(setters)
+            if w == "trait":
+                steps.append({"set": "trait", "value": ["new%d_%d" % (len(steps), k) for k in range(t)]})
+            else:
+                rows = {"u_a": p, "u_d": p, "beta": q, "u_misc": pm}[w]
+                steps.append({"set": w, "value": canon.enc(self._eff(rng, rows, t, zeros=(w != "u_a")))})
+        return {"kind": "requery", "ploidy": ploidy, "g": g, "t": t,
+                "beta": canon.enc(self._eff(rng, q, t)), "ua": canon.enc(self._eff(rng, p, t)),
+                "ud": canon.enc(self._eff(rng, p, t)) if has_d else None,
+                "um": canon.enc(self._eff(rng, pm, t)) if pm else None,
+                "Zm": canon.enc([[rng.choice([0, 1, 2, Fraction(1, 2)]) for _ in range(pm)] for _ in range(n)]) if pm else None,
+                "taxa": names, "grp": [rng.randint(1, 3) for _ in range(n)],
+                "X": canon.enc(X), "Y": canon.enc(Y), "steps": steps}
+
     def corpus(self):
         return [
             # every entry point, labels unsorted, exact zeros, an all-zero trait column
@@ -292,6 +332,17 @@ class C04(Prop):
             {"kind": "fit", "via": "fit_numpy", "Z": [[0, 1, 2, 0], [1, 1, 0, 2], [2, 0, 1, 1]], "Y": [[1], [2], [4]]},
             # constant response
             {"kind": "fit", "via": "fit_numpy", "Z": [[0, 1], [1, 1], [2, 0], [1, 2]], "Y": [[3], [3], [3], [3]]},
+            # evaluate, assign new marker effects / intercepts / dominance effects / trait names, evaluate again
+            {"kind": "requery", "ploidy": 2, "t": 1, "g": [[[0, 1], [1, 1], [0, 0]], [[1, 1], [1, 0], [0, 0]]],
+             "beta": [[1], [2]], "ua": [[1], [-2]], "ud": [[1], [0]], "um": None, "Zm": None,
+             "taxa": ["c", "a", "b"], "grp": [3, 1, 2], "X": [[1, 0], [1, 1], [1, 2]], "Y": [[1], [3], [2]],
+             "steps": [{"set": "u_a", "value": [[-3], [1]]}, {"set": "beta", "value": [[5], [0]]},
+                       {"set": "u_d", "value": [[0], [2]]}, {"set": "trait", "value": ["yield"]}]},
+            # with miscellaneous random effects (predict_numpy / score_numpy only)
+            {"kind": "requery", "ploidy": 2, "t": 2, "g": [[[0, 1], [1, 1]], [[1, 0], [1, 0]]],
+             "beta": [[1, 0]], "ua": [[1, 2], [-2, 0]], "ud": None, "um": [[1, 1]], "Zm": [[1], [2]],
+             "taxa": ["b", "a"], "grp": [1, 1], "X": [[1], [1]], "Y": [[1, 0], [3, 2]],
+             "steps": [{"set": "u_misc", "value": [[-2, 3]]}, {"set": "u_a", "value": [[0, 1], [4, -1]]}]},
         ] + self._finding_cases()
 
     @staticmethod
@@ -318,6 +369,8 @@ class C04(Prop):
                 out.append(self._gs_case(rng))
             elif r < 0.78:
                 out.append(self._ml0_case(rng))
+            elif r < 0.88:
+                out.append(self._requery_case(rng))
             else:
                 out.append(self._fit_case(rng))
         return out
@@ -467,6 +520,88 @@ class C04(Prop):
         return {"beta": canon.enc(mod.beta), "u_a": canon.enc(mod.u_a), "ridges": [r["ridge"] for r in rec],
                 "sols": [r["uhat"] for r in rec], "class": type(mod).__name__}
 
+    def _query(self, m, add, dom, case, pg, ug, raw, X, Y, Zm):
+        """every prediction / statistics / allele entry point of the SAME model objects"""
+        ploidy = case["ploidy"]
+        n, q = X.shape
+        misc = Zm is not None
+        A = raw.astype(float)
+        Xs = numpy.empty((n, q), dtype=float)
+        Xs[:, 0] = 1
+        Xs[:, 1:] = 1 / q
+        V, S = {}, {}
+        V["gebv_phased"] = _bv(add.gebv(pg))
+        V["gebv_raw"] = _bv(add.gebv(raw))
+        V["gebv_tbv"] = _bv(m.TBV(add).estimate(None, pg))
+        V["gegv_additive"] = _bv(add.gegv(ug))
+        V["gebv_numpy"] = {"mat": canon.enc(add.gebv_numpy(A))}
+        Za = A if not misc else numpy.concatenate([Zm, A], axis=1)
+        V["predict_numpy_misc"] = {"mat": canon.enc(add.predict_numpy(X, Za))}
+        S["score_numpy_misc"] = canon.enc(add.score_numpy(Y, X, Za))
+        S["var_A"] = canon.enc(add.var_A(pg))
+        S["var_G_add"] = canon.enc(add.var_G(ug))
+        S["var_a"] = canon.enc(add.var_a(pg))
+        S["bulmer"] = canon.enc(add.bulmer(pg))
+        if not misc:
+            V["gebv_baseclass"] = _bv(m.LIN.gebv(add, pg))
+            V["predict_phased"] = _bv(add.predict(X, pg))
+            V["predict_raw"] = _bv(add.predict(X, raw))
+            V["predict_xstar"] = _bv(add.predict(Xs, pg))          # must equal gebv on the same object
+            S["score"] = canon.enc(add.score(Y, X, pg))
+            S["var_a_baseclass"] = canon.enc(m.LIN.var_a(add, ug))
+        if dom is not None:
+            D = numpy.logical_and(raw != 0, raw != ploidy).astype(float)
+            Zd = numpy.concatenate(([Zm] if misc else []) + [A, D], axis=1)
+            V["gegv_phased"] = _bv(dom.gegv(pg))
+            V["gegv_unphased"] = _bv(dom.gegv(ug))
+            V["gebv_dom"] = _bv(dom.gebv(pg))
+            V["predict_numpy_dom_misc"] = {"mat": canon.enc(dom.predict_numpy(X, Zd))}
+            S["score_numpy_dom_misc"] = canon.enc(dom.score_numpy(Y, X, Zd))
+            S["var_G"] = canon.enc(dom.var_G(pg))
+            S["var_A_dom"] = canon.enc(dom.var_A(pg))
+            if not misc:
+                V["predict_dom"] = _bv(dom.predict(X, pg))
+                V["predict_dom_xstar"] = _bv(dom.predict(Xs, ug))  # must equal gegv on the same object
+                S["score_dom"] = canon.enc(dom.score(Y, X, ug))
+        al = {fn: canon.enc(getattr(add, fn)(pg)) for fn in self._ALLELE_FNS}
+        return {"views": V, "stats": S, "alleles": al}
+
+    @staticmethod
+    def _stage_params(case):
+        """parameters in force after 0, 1, 2, ... assignments"""
+        cur = {"beta": case["beta"], "u_a": case["ua"], "u_d": case["ud"], "u_misc": case["um"],
+               "trait": ["trait%d" % k for k in range(case["t"])]}
+        out = [dict(cur)]
+        for st in case["steps"]:
+            cur[st["set"]] = st["value"]
+            out.append(dict(cur))
+        return out
+
+    def _run_requery(self, case):
+        m = _mods()
+        t = case["t"]
+        obj = lambda names: numpy.array(names, dtype=object)
+        pg, ug, raw = self._mk_geno(m, case["g"], case["taxa"], case["grp"], case["ploidy"])
+        X = _farr(case["X"], len(case["beta"]))
+        Y = _farr(case["Y"], t)
+        Zm = None if case["um"] is None else _farr(case["Zm"], len(case["um"]))
+        st0 = self._stage_params(case)[0]
+        um = None if case["um"] is None else _farr(case["um"], t)
+        add = m.ADD(beta=_farr(case["beta"], t), u_misc=um, u_a=_farr(case["ua"], t), trait=obj(st0["trait"]))
+        dom = None
+        if case["ud"] is not None:
+            dom = m.DOM(beta=_farr(case["beta"], t), u_misc=None if um is None else um.copy(),
+                        u_a=_farr(case["ua"], t), u_d=_farr(case["ud"], t), trait=obj(st0["trait"]))
+        stages = [self._query(m, add, dom, case, pg, ug, raw, X, Y, Zm)]
+        for st in case["steps"]:
+            for mod in (add, dom):
+                if mod is None or (st["set"] == "u_d" and mod is add):
+                    continue
+                val = obj(st["value"]) if st["set"] == "trait" else _farr(st["value"], t)
+                setattr(mod, st["set"], val)             # the public setter
+            stages.append(self._query(m, add, dom, case, pg, ug, raw, X, Y, Zm))
+        return {"stages": stages}
+
     def run_impl(self, case):
         return getattr(self, "_run_" + case["kind"])(case)
 
@@ -511,6 +646,56 @@ class C04(Prop):
 
     _FINITE_KEYS = {"gs": ("x",), "ml0": ("betahat", "uhat", "ridge"), "fit": ("beta", "u_a", "ridges", "sols")}
 
+    _RQ_MODE = {"gebv_phased": "gebv", "gebv_raw": "gebv", "gebv_tbv": "gebv", "gegv_additive": "gebv",
+                "gebv_numpy": "gebv_numpy", "gebv_baseclass": "gebv", "predict_phased": "predict",
+                "predict_raw": "predict", "predict_xstar": "gebv", "gegv_phased": "gegv", "gegv_unphased": "gegv",
+                "gebv_dom": "gebv", "predict_dom": "predict_dom", "predict_dom_xstar": "gegv",
+                "predict_numpy_misc": "predict", "predict_numpy_dom_misc": "predict_dom"}
+    _RQ_MODELKEY = {"gebv": "gebv", "gegv": "gegv", "gebv_numpy": "gebv_numpy", "predict": "predict",
+                    "predict_dom": "predict_dom"}
+    _RQ_MISC = {"predict_numpy_misc", "predict_numpy_dom_misc"}
+    _RQ_NOLABEL = {"gebv_raw", "predict_raw", "gebv_numpy", "predict_numpy_misc", "predict_numpy_dom_misc"}
+    _RQ_STAT = {"var_A": "var_A", "var_G_add": "var_A", "var_a": "var_a", "var_a_baseclass": "var_a",
+                "bulmer": "bulmer", "score": "score", "var_G": "var_G", "var_A_dom": "var_A",
+                "score_dom": "score_dom"}
+    _RQ_STAT_MISC = {"score_numpy_misc": "score", "score_numpy_dom_misc": "score_dom"}
+
+    def _requery_requests(self, case, par, stg):
+        """7 requests per stage: model (plain / misc-augmented), Spec values (plain / misc), Spec stats
+        (plain / misc), alleles model + Spec.  Miscellaneous random effects enter the definitions as extra
+        fixed-effect columns: X' = [X | Zm], beta' = [beta ; u_misc]."""
+        common = {"ua": par["u_a"], "t": case["t"], "ploidy": case["ploidy"]}
+        if par["u_d"] is not None:
+            common["ud"] = par["u_d"]
+        beta2, X2 = par["beta"], case["X"]
+        if par["u_misc"] is not None:
+            beta2 = list(par["beta"]) + list(par["u_misc"])
+            X2 = [list(a) + list(b) for a, b in zip(case["X"], case["Zm"])]
+        va, vb = [], []
+        for name in sorted(stg["views"]):
+            v = stg["views"][name]
+            d = {"mode": self._RQ_MODE[name], "g": case["g"], "out": v["mat"], "name": name,
+                 "X": X2 if name in self._RQ_MISC else case["X"]}
+            if name in self._RQ_NOLABEL:
+                d.update({"labelled": False, "taxa_out": v.get("taxa"), "grp_out": v.get("grp")})
+            else:
+                d.update({"labelled": True, "taxa_in": case["taxa"], "grp_in": case["grp"],
+                          "taxa_out": v["taxa"], "grp_out": v["grp"]})
+            (vb if name in self._RQ_MISC else va).append(d)
+        sa = {k: v for k, v in stg["stats"].items() if k in self._RQ_STAT}
+        sb = {self._RQ_STAT_MISC[k]: v for k, v in stg["stats"].items() if k in self._RQ_STAT_MISC}
+        al = {"ua": par["u_a"], "ploidy": case["ploidy"], "g": case["g"]}
+        return [
+            {"op": "c04.lin", **common, "beta": par["beta"], "g": case["g"], "X": case["X"], "Y": case["Y"]},
+            {"op": "c04.lin", **common, "beta": beta2, "g": case["g"], "X": X2, "Y": case["Y"]},
+            {"op": "c04.spec_values", **common, "beta": par["beta"], "views": va},
+            {"op": "c04.spec_values", **common, "beta": beta2, "views": vb},
+            {"op": "c04.spec_stats", **common, "beta": par["beta"], "g": case["g"], "X": case["X"], "Y": case["Y"], "stats": sa},
+            {"op": "c04.spec_stats", **common, "beta": beta2, "g": case["g"], "X": X2, "Y": case["Y"], "stats": sb},
+            {"op": "c04.alleles", **al},
+            {"op": "c04.spec_alleles", **al, "obs": stg["alleles"]},
+        ]
+
     def requests(self, case, obs):
         k = case["kind"]
         if k in self._FINITE_KEYS and self._nonfinite(obs, self._FINITE_KEYS[k]):
@@ -527,6 +712,11 @@ class C04(Prop):
                 {"op": "c04.spec_values", **common, "views": self._views(case, obs)},
                 {"op": "c04.spec_stats", **common, "g": case["g"], "X": case["X"], "Y": case["Y"], "stats": stats},
             ]
+        if k == "requery":
+            reqs = []
+            for par, stg in zip(self._stage_params(case), obs["stages"]):
+                reqs.extend(self._requery_requests(case, par, stg))
+            return reqs
         if k == "alleles":
             base = {"ua": case["ua"], "ploidy": case["ploidy"], "g": case["g"]}
             return [{"op": "c04.alleles", **base},
@@ -614,6 +804,45 @@ class C04(Prop):
             return {"corr": corr, "spec": spec, "nontrivial": nontriv,
                     "detail": f"lin corr_bad={bad} spec_values=[{sv['detail']}] spec_stats=[{ss['detail']}] "
                               f"dup_bad={dup_bad} untouched={obs['inputs_untouched']}"}
+        if k == "requery":
+            pars = self._stage_params(case)
+            bad, sbad = [], []
+            for si, (par, stg) in enumerate(zip(pars, obs["stages"])):
+                m1, m2, sva, svb, ssa, ssb, mal, sal = A[8 * si: 8 * si + 8]
+                tag = "stage%d" % si + ("" if si == 0 else "[%s]" % case["steps"][si - 1]["set"])
+                for name, v in stg["views"].items():
+                    src = m2 if name in self._RQ_MISC else m1
+                    if not self._cl(v["mat"], src[self._RQ_MODELKEY[self._RQ_MODE[name]]]):
+                        bad.append(tag + "." + name)
+                    if "trait" in v and v["trait"] != par["trait"]:
+                        bad.append(tag + "." + name + ".trait")
+                        sbad.append(tag + "." + name + ".trait")
+                for name, val in stg["stats"].items():
+                    if name in self._RQ_STAT:
+                        want = m1[self._RQ_STAT[name]]
+                    else:
+                        want = m2[self._RQ_STAT_MISC[name]]
+                    if not self._cl(val, ["nan" if w is None else w for w in want]):
+                        bad.append(tag + "." + name)
+                for fn in self._ALLELE_FNS:
+                    got, want = stg["alleles"][fn], mal[fn]
+                    if (not self._cl(got, want)) if fn in ("fafreq", "dafreq") else (got != want):
+                        bad.append(tag + "." + fn)
+                for nm, r in (("values", sva), ("values_misc", svb), ("stats", ssa), ("stats_misc", ssb), ("alleles", sal)):
+                    if not r["ok"]:
+                        sbad.append(tag + "." + nm + "[" + r["detail"] + "]")
+                # the same object must answer consistently: predict on Xstar rows = gebv / gegv
+                V = stg["views"]
+                for a, b in (("predict_xstar", "gebv_phased"), ("predict_dom_xstar", "gegv_phased")):
+                    if a in V and not self._cl(V[a]["mat"], V[b]["mat"]):
+                        sbad.append(tag + "." + a + "!=" + b)
+            g = case["g"]
+            dos = [tuple(sum(ph[i][j] for ph in g) for j in range(len(g[0][0]))) for i in range(len(g[0]))]
+            changed = any(st["set"] in ("u_a", "beta", "u_d", "u_misc") and st["value"] !=
+                          {"u_a": case["ua"], "beta": case["beta"], "u_d": case["ud"], "u_misc": case["um"]}[st["set"]]
+                          for st in case["steps"])
+            return {"corr": not bad, "spec": not sbad, "nontrivial": len(set(dos)) >= 2 and changed,
+                    "detail": f"requery steps={[st['set'] for st in case['steps']]} corr_bad={bad[:12]} spec_bad={sbad[:8]}"}
         if k == "alleles":
             mod, s1, s2 = A
             bad = []
@@ -714,6 +943,42 @@ class C04(Prop):
                 c = dict(case)
                 c["ud"] = None
                 yield c
+        elif k == "requery":
+            g = case["g"]
+            n, p, t = len(g[0]), len(case["ua"]), case["t"]
+            for si in range(len(case["steps"])):
+                if len(case["steps"]) > 1:
+                    c = dict(case)
+                    c["steps"] = case["steps"][:si] + case["steps"][si + 1:]
+                    yield c
+            if case["ud"] is not None:
+                c = dict(case)
+                c["ud"] = None
+                c["steps"] = [st for st in case["steps"] if st["set"] != "u_d"] or [{"set": "trait", "value": ["x%d" % k for k in range(t)]}]
+                yield c
+            if case["um"] is not None:
+                c = dict(case)
+                c["um"] = c["Zm"] = None
+                c["steps"] = [st for st in case["steps"] if st["set"] != "u_misc"] or [{"set": "trait", "value": ["x%d" % k for k in range(t)]}]
+                yield c
+            for i in range(n):
+                if n > 1:
+                    keep = [x for x in range(n) if x != i]
+                    c = dict(case)
+                    c["g"] = _gperm(g, keep)
+                    for key in ("taxa", "grp", "X", "Y", "Zm"):
+                        c[key] = _take(case[key], keep)
+                    yield c
+            for j in range(p):
+                if p > 1:
+                    keep = [x for x in range(p) if x != j]
+                    c = dict(case)
+                    c["g"] = _gcols(g, keep)
+                    c["ua"] = _take(case["ua"], keep)
+                    c["ud"] = _take(case["ud"], keep)
+                    c["steps"] = [dict(st, value=_take(st["value"], keep)) if st["set"] in ("u_a", "u_d") else st
+                                  for st in case["steps"]]
+                    yield c
         elif k == "alleles":
             g = case["g"]
             n, p = len(g[0]), len(case["ua"])
@@ -935,6 +1200,36 @@ class C04(Prop):
             mod.u_a[poly, :] = mod.u_a[poly, :][::-1, :].copy()
             return mod
 
+        def stale(cls, name, slot):
+            """property that answers with the value it computed first (cache never invalidated)"""
+            orig = None
+            for c in cls.__mro__:
+                if name in c.__dict__:
+                    orig = c.__dict__[name]
+                    break
+
+            def fget(self):
+                if slot not in self.__dict__:
+                    self.__dict__[slot] = orig.fget(self)
+                return self.__dict__[slot]
+            return property(fget, orig.fset)
+
+        @contextlib.contextmanager
+        def stale_u():
+            with patch(m.ADD, "u", stale(m.ADD, "u", "_c04_u_cache")), patch(m.DOM, "u", stale(m.DOM, "u", "_c04_u_cache")):
+                yield
+
+        def facount_cached_mask(self, gmat, dtype=None, **kw):
+            dtype = numpy.dtype(int if dtype is None else dtype)
+            if "_c04_mask" not in self.__dict__:
+                self.__dict__["_c04_mask"] = (self.u_a > 0.0, self.u_a == 0.0)
+            pos, zero = self.__dict__["_c04_mask"]
+            ac = gmat.acount(dtype=dtype)[:, None]
+            mx = dtype.type(gmat.ploidy * gmat.ntaxa)
+            out = numpy.where(pos, ac, mx - ac)
+            out[zero] = 0
+            return out
+
         both = lambda name, fn: (lambda: _both(name, fn))
 
         @contextlib.contextmanager
@@ -962,6 +1257,13 @@ class C04(Prop):
             ("dacount_max_is_ntaxa", lambda: patch(m.ADD, "dacount", dacount_ntaxa_only)),
             ("fapoly_le_max", lambda: patch(m.ADD, "fapoly", fapoly_le)),
             ("napoly_ge_zero", lambda: patch(m.ADD, "napoly", napoly_ge)),
+            # state: derived quantities must follow the public setters (kind "requery")
+            ("stale_u_cache_after_setter", stale_u),
+            ("stale_beta_after_setter", lambda: patch(m.ADD, "beta", stale(m.ADD, "beta", "_c04_beta_cache"))),
+            ("stale_u_a_in_gebv_numpy", lambda: patch(m.ADD, "u_a", stale(m.ADD, "u_a", "_c04_ua_cache"))),
+            ("stale_u_d_after_setter", lambda: patch(m.DOM, "u_d", stale(m.DOM, "u_d", "_c04_ud_cache"))),
+            ("stale_trait_labels", lambda: patch(m.ADD, "trait", stale(m.ADD, "trait", "_c04_trait_cache"))),
+            ("facount_sign_mask_cached", lambda: patch(m.ADD, "facount", facount_cached_mask)),
             # mechanism 5: rrBLUP
             ("gs_wrong_sign_lower_part", lambda: patch(m.rr, "gauss_seidel", gs_jacobi_sign)),
             ("gs_stops_after_two_sweeps", lambda: patch(m.rr, "gauss_seidel", gs_two_sweeps)),
